@@ -117,11 +117,15 @@ func table(m map[string]string, order []string) string {
 
 func docPagesLine(p *pkg, tm map[string]int, doc *model.Document, kind string) string {
 	var xs []string
+	blanks := p.textlessMembers()
 	for _, pg := range doc.Pages {
 		t := pageText(pg)
 		cid := p.cidOf1(tm, t, kind)
-		if cid == "?" && p.Blank != "" && strings.TrimSpace(t) == "" {
-			cid = fmt.Sprint(p.cidOf(p.Blank)) // the one page without any text is the blank page
+		if cid == "?" && len(blanks) > 0 && strings.TrimSpace(t) == "" {
+			// a page without any text is a text-less chapter: the k-th such page is the k-th
+			// text-less chapter of the spine
+			cid = fmt.Sprint(p.cidOf(blanks[0]))
+			blanks = blanks[1:]
 		}
 		xs = append(xs, fmt.Sprintf("%d:%s", pg.Number, cid))
 	}
